@@ -26,11 +26,10 @@ def seq_table(seqs, length):
 
 def obligations(tier):
     o = []
-    L = 3 if tier == "quick" else 4
-    A = alpha(2) if tier == "quick" else alpha(3)
-    seqs = list(itertools.product(A, repeat=L))
+    plan = [(1, 3, alpha(2)), (-1, 3, alpha(2))] if tier == "quick" else [(0, 3, alpha(3)), (1, 3, alpha(3)), (2, 3, alpha(3)), (-1, 4, alpha(2))]
     per = 28
-    for cap in ((1, -1) if tier == "quick" else (0, 1, 2, -1)):
+    for cap, L, A in plan:
+        seqs = list(itertools.product(A, repeat=L))
         cn = "indefinite" if cap < 0 else "definite_cap%d" % cap
         for bi in range(0, len(seqs), per):
             chunk = seqs[bi:bi + per]
@@ -62,7 +61,7 @@ def obligations(tier):
 META = dict(
     level="model_checking", exhaustive=True,
     bounds={"quick": "arrays: all 10^3 = 1000 operation sequences of length 3 over {push, set/replace/get i | i in 0..2} per capacity in {1, indefinite}, all 100 sequences of length 2 with object-bounds checks; maps/chunked strings: 6 insertions per capacity; growth lemma for ANY capacity (2^64) per container kind",
-            "thorough": "arrays: all 13^4 = 28561 sequences of length 4 (indices 0..3) per capacity in {0,1,2,indefinite}"},
+            "thorough": "arrays: all 13^3 = 2197 sequences of length 3 with indices 0..3 for each definite capacity 0,1,2 and all 10^4 sequences of length 4 (indices 0..2) on the indefinite array"},
     assumptions=["operations and indices are concrete per sequence (complete enumeration of the finite family), element payloads symbolic", "growth lemma: recording allocator refuses, so the pointer outcome is concrete; the granted path is covered by the sequences and by C06",
                  "abstract list model in h_cont.c"],
     outside=["sequences longer than 4; thousands of insertions (replaced by the any-capacity growth lemma: capacity at least doubles, so n insertions need at most ceil(log2 n)+1 reallocations)"],
